@@ -129,6 +129,8 @@ def check_ids(ck, recs):
 def case_key(r):
     if r["k"] in ("r", "w"):
         return "c08:%s:%s" % ("Read" if r["k"] == "r" else "Write", OPNAMES[r["op"]])
+    if r["k"] == "l32":
+        return "c08:l32:%s" % ("b2t" if r["b2t"] else "t2b")
     return "c08:%s:%s" % (r["k"], r.get("name", ""))
 
 
